@@ -42,14 +42,17 @@ func validateContentType(allowed []string, actual string) error {
 	if err != nil {
 		return errors.InvalidContentType(actual, allowed)
 	}
-	if swag.ContainsStringsCI(allowed, mt) {
+	// entries of the consumes list may carry parameters (e.g. "; charset=utf-8"): like the consumer table,
+	// the check is about the media type alone
+	allowedTypes := normalizeOffers(allowed)
+	if swag.ContainsStringsCI(allowedTypes, mt) {
 		return nil
 	}
-	if swag.ContainsStringsCI(allowed, "*/*") {
+	if swag.ContainsStringsCI(allowedTypes, "*/*") {
 		return nil
 	}
 	parts := strings.Split(actual, "/")
-	if len(parts) == 2 && swag.ContainsStringsCI(allowed, parts[0]+"/*") {
+	if len(parts) == 2 && swag.ContainsStringsCI(allowedTypes, parts[0]+"/*") {
 		return nil
 	}
 	return errors.InvalidContentType(actual, allowed)
